@@ -180,8 +180,14 @@ func runC15(c *Ctx) {
 							}
 						}
 					}
+					// a decision taken inside the exit hook: the function GnmiUpdate defers (a literal or a method)
 					if ev.F != nil && ev.F.Fn.Parent() == GU {
 						hook = true
+					}
+					if ev.F != nil && ev.F.Call != nil {
+						if d, isDefer := ev.F.Call.(*ssa.Defer); isDefer && d.Parent() == GU {
+							hook = true
+						}
 					}
 					continue
 				}
